@@ -56,6 +56,21 @@ inductive Walk (s : FSA V L) (r : V) : V → Nat → Prop
 /-- `n` is the graph distance from `r` to `x` -/
 def IsDist (s : FSA V L) (r x : V) (n : Nat) : Prop := Walk s r x n ∧ ∀ m, Walk s r x m → n ≤ m
 
+
+/-! ### a fuel bound for `automaton_multiple` -/
+
+/-- weight of a queue entry naming a vertex that has not been popped yet, when `u` vertices have not
+been popped yet and every vertex has at most `D` walks of length `k` -/
+def multA (D : Nat) : Nat → Nat
+  | 0 => 0
+  | u + 1 => 1 + D * (1 + D * multA D u)
+
+/-- weight of a queue entry naming a vertex that has been popped before -/
+def multB (D u : Nat) : Nat := 1 + D * multA D u
+
+/-- enough fuel for `automaton_multiple`: `#starts · multA D #vertices` (exponential in `#vertices`) -/
+def multFuel (s : FSA V L) (D : Nat) : Nat := s.starts.length * multA D s.out.length
+
 /-! ### the plain set model -/
 
 /-- a vertex set and a set of labelled edges `tail —label→ head`; nothing else -/
